@@ -23,6 +23,7 @@ from __future__ import annotations
 import json
 import os
 import re
+import shutil
 import subprocess
 import time
 from concurrent.futures import ThreadPoolExecutor
@@ -35,7 +36,7 @@ from vlib.core import BUILD, PY, VERIF, impl_env
 
 PROP = "C01"
 CORPUS = VERIF / "corpus" / PROP
-WORK = BUILD / "c01"
+WORK = BUILD / "c01" / f"run_p{os.getpid()}"
 WORKER = str(VERIF / "tools" / "harness" / "c01_worker.py")
 
 K_F2 = "K-C01-F2"
@@ -59,6 +60,15 @@ F3_TEMPLATES = [
     "a(i) = 65536 * (65536 * b(i))",
     "a(i) = (b(i) + 65536) * 65536",
     "a(i) = b(i) * 46341 * 46341",
+]
+LATTICE_TEMPLATES = [   # vectors only: 2^n format assignments, the whole co-iteration lattice is reachable
+    "a(i) = (b(i) + c(i)) * d(i) + e(i)",
+    "a(i) = (b(i) + c(i)) * d(i)",
+    "a(i) = b(i) * c(i) + d(i) * e(i)",
+    "a(i) = (b(i) + c(i)) * (d(i) + e(i))",
+    "a(i) = b(i) * (c(i) + d(i) * e(i))",
+    "a(i) = b(i) + c(i) * d(i) - e(i)",
+    "a() = (b(i) + c(i)) * d(i)",
 ]
 F2_TEMPLATES = [
     "o() = X() + Y(k) + Z(k)",
@@ -334,7 +344,7 @@ def stage_desugar(chk, texts: list[str]) -> str:
             "Definition cases : list (assignment Z * (dexpr Z * dexpr Z)) :=\n [" + ";\n  ".join(rows) + "].\n"
             "Eval vm_compute in (false_positions (map (desugar_case_ok false) cases), "
             "false_positions (map (desugar_case_ok true) cases)).\n")
-    ok, out = chk.coq_eval("c01_desugar", text)
+    ok, out = chk.coq_eval(f"c01_p{os.getpid()}_desugar", text)
     if not ok:
         chk.broken.append({"kind": "correspondence", "stage": "desugar", "coq_error": out[-1500:]})
         return "neither"
@@ -369,16 +379,16 @@ def stage_desugar(chk, texts: list[str]) -> str:
 # ------------------------------------------------------------------------------------------------
 # stage: exhaust / extract_context correspondence
 # ------------------------------------------------------------------------------------------------
-def coq_iexpr(e) -> str:
+def coq_iexpr(e, scale: int = 2) -> str:
     k = e[0]
     if k == "int":
         return f"(IInt {S.cz(e[1])})"
     if k == "float":
-        return f"(IFloat {S.cz(S.float_as_Z(e[1], 2))})"
+        return f"(IFloat {S.cz(S.float_as_Z(e[1], scale))})"
     if k == "t":
         modes = S.clist("MDense" if m == "d" else "MCompressed" for m in e[4])
         return f"(ITensor {S.cstr(e[1])} {S.cstr(e[2])} {S.clist(S.cstr(i) for i in e[3])} {modes})"
-    return f"({'IAdd' if k == '+' else 'IMul'} {coq_iexpr(e[1])} {coq_iexpr(e[2])})"
+    return f"({'IAdd' if k == '+' else 'IMul'} {coq_iexpr(e[1], scale)} {coq_iexpr(e[2], scale)})"
 
 
 def coq_context(c) -> str:
@@ -409,7 +419,7 @@ def stage_exhaust(chk, n: int):
                       "list (string * option context)) :=\n [" + ";\n  ".join(rows) + "].\n"
                       "Eval vm_compute in (false_positions (map exhaust_case_ok cases)).\n"))
     with ThreadPoolExecutor(max_workers=4) as ex:
-        outs = list(ex.map(lambda t: (t[0], chk.coq_eval(f"c01_exhaust_{t[0]}", t[1])), files))
+        outs = list(ex.map(lambda t: (t[0], chk.coq_eval(f"c01_p{os.getpid()}_exhaust_{t[0]}", t[1])), files))
     nontrivial = 0
     for lo, (ok, out) in outs:
         if not ok:
@@ -429,6 +439,65 @@ def stage_exhaust(chk, n: int):
     if recs:
         chk.sample({"stage": "exhaust", "tree": recs[0]["tree"], "exhaust": recs[0]["exhaust"]})
 
+
+
+# ------------------------------------------------------------------------------------------------
+# stage: the real first iteration graph as a checked certificate (graph_ok, proved sound)
+# ------------------------------------------------------------------------------------------------
+def coq_graph(g) -> str:
+    k = g[0]
+    if k == "T":
+        return f"(GTerminal {coq_iexpr(g[1], FLOAT_SCALE)})"
+    if k == "I":
+        out = "None" if g[2] is None else f"(Some {int(g[2])}%nat)"
+        return f"(GIter {S.cstr(g[1])} {out} {coq_graph(g[3])})"
+    return f"(GSum {S.clist(coq_graph(t) for t in g[1])})"
+
+
+def stage_graphs(chk, problems: list[dict]):
+    """problems: [{assignment, formats}] (distinct).  Every graph Python builds must be accepted by
+    DesugarSemGraph.graph_ok against Python's desugared right-hand side."""
+    rc, err, outp = run_worker("graphs", {"problems": problems}, "graphs")
+    if rc != 0 or not outp.exists():
+        chk.broken.append({"kind": "correspondence", "stage": "graphs", "error": err[-1500:]})
+        return
+    recs = [r for r in json.loads(outp.read_text()) if "graph" in r]
+    files = []
+    for lo in range(0, len(recs), 300):
+        rows = []
+        for r in recs[lo:lo + 300]:
+            ords = S.clist(f"({S.cstr(n)}, {sweep.natlist(o)})" for n, o in sorted(r["orderings"].items()))
+            rows.append(f"({ords}, {coq_dexpr(r['desugared'])}, {coq_graph(r['graph'])})")
+        files.append((lo, "From Coq Require Import ZArith List String.\nFrom TV Require Import spec.Storage spec.Spec "
+                      "model.DesugarSem model.Exhaust model.DesugarSemGraph.\nImport ListNotations.\nOpen Scope Z_scope.\n"
+                      "Definition cases : list (list (string * list nat) * dexpr Z * graph Z) :=\n ["
+                      + ";\n  ".join(rows) + "].\n"
+                      "Eval vm_compute in (false_positions (map (fun '(o, d, g) => "
+                      "graph_ok (fun n => match lookup n o with Some l => l | None => [] end) Z.eqb d g) cases)).\n"))
+    with ThreadPoolExecutor(max_workers=4) as ex:
+        outs = list(ex.map(lambda t: (t[0], chk.coq_eval(f"c01_p{os.getpid()}_graphs_{t[0]}", t[1])), files))
+    rejected = 0
+    for lo, (ok, out) in outs:
+        if not ok:
+            chk.broken.append({"kind": "correspondence", "stage": "graphs", "coq_error": out[-1500:]})
+            continue
+        for i in (parse_nat_lists(out) or [[]])[0]:
+            rejected += 1
+            if rejected <= 5:
+                r = recs[lo + i]
+                chk.broken.append({"kind": "certificate", "stage": "graphs",
+                                   "what": "the iteration graph built by /repo is rejected by the verified checker graph_ok: "
+                                           "as a loop nest it does not denote the desugared assignment",
+                                   "assignment": r["assignment"], "formats": r["formats"], "graph": r["graph"],
+                                   "desugared": r["desugared"]})
+    for r in recs:
+        chk.case(("graph", r["assignment"], json.dumps(r["formats"], sort_keys=True)))
+    chk.count("graphs.validated", len(recs))
+    chk.count("graphs.rejected", rejected)
+    chk.count("graphs.with_sum_node", sum(1 for r in recs if '"S"' in json.dumps(r["graph"])))
+    if recs:
+        chk.sample({"stage": "graphs", "assignment": recs[-1]["assignment"], "formats": recs[-1]["formats"],
+                    "graph": recs[-1]["graph"]})
 
 # ------------------------------------------------------------------------------------------------
 # stage: spec evaluated inside Coq, cross-checked against the Python mirror
@@ -458,7 +527,7 @@ def stage_coq_spec(chk, judged: list[dict], n_cases: int):
                       + ";\n  ".join(rows[lo:lo + 120]) + "].\n"
                       "Eval vm_compute in (map (fun '(a, ins, sz, out) => (spec_table a ins sz, c01_case_ok a ins sz out)) cases).\n"))
     with ThreadPoolExecutor(max_workers=4) as ex:
-        outs = list(ex.map(lambda t: (t[0], chk.coq_eval(f"c01_spec_{t[0]}", t[1])), files))
+        outs = list(ex.map(lambda t: (t[0], chk.coq_eval(f"c01_p{os.getpid()}_spec_{t[0]}", t[1])), files))
     agree = 0
     for lo, (ok, out) in outs:
         if not ok:
@@ -560,25 +629,6 @@ def judge_all(chk, cases, results, crashes, impl_is, workers, tag):
     """Judge executed cases; returns the list of judged records."""
     by_id = {c["id"]: c for c in cases}
     judged, suspects = [], []
-    for culprit, rc, err in crashes:
-        if culprit is None:
-            chk.broken.append({"kind": "harness", "stage": "eval", "what": "worker died outside any case",
-                               "rc": rc, "stderr": err})
-            continue
-        chk.count("crashes")
-        if chk.counters["crashes"] > MAX_REPORTED:
-            continue
-        # confirm the first ones in isolation (a crash can be the delayed effect of an earlier case)
-        cr2 = None
-        if chk.counters["crashes"] <= 2:
-            alone, cr2 = eval_shard(9000 + culprit["id"], [culprit], 30, tag + "_confirm")
-        chk.violation(
-            "the evaluate kernel crashed or hung (process died) on this case"
-            + ("" if cr2 or cr2 is None else " -- not reproducible in isolation, an earlier case of the same process may be the cause"),
-            {"input": {"assignment": culprit["assignment"], "formats": culprit["formats"], "sizes": culprit["sizes"],
-                       "inputs": culprit["inputs"], "backend": culprit.get("backend", "llvm")},
-             "expected": "a result tensor", "actual": f"process exit status {rc}", "stderr_tail": err[-600:],
-             "reproducible_alone": None if cr2 is None else bool(cr2)})
     for cid, res in results.items():
         case = by_id[cid]
         st = res["status"]
@@ -673,6 +723,25 @@ def judge_all(chk, cases, results, crashes, impl_is, workers, tag):
         chk.violation("evaluate does not compute the meaning of the assignment: " + rec["detail"].get("why", "?"),
                       replay_payload(rec["case"], rec["res"], rec["detail"]))
     chk.count("violations.value", len(bad))
+    for culprit, rc, err in crashes:
+        if culprit is None:
+            chk.broken.append({"kind": "harness", "stage": "eval", "what": "worker died outside any case",
+                               "rc": rc, "stderr": err})
+            continue
+        chk.count("crashes")
+        if chk.counters["crashes"] > MAX_REPORTED:
+            continue
+        # confirm the first ones in isolation (a crash can be the delayed effect of an earlier case)
+        cr2 = None
+        if chk.counters["crashes"] <= 2:
+            alone, cr2 = eval_shard(9000 + culprit["id"], [culprit], 30, tag + "_confirm")
+        chk.violation(
+            "the evaluate kernel crashed or hung (process died) on this case"
+            + ("" if cr2 or cr2 is None else " -- not reproducible in isolation, an earlier case of the same process may be the cause"),
+            {"input": {"assignment": culprit["assignment"], "formats": culprit["formats"], "sizes": culprit["sizes"],
+                       "inputs": culprit["inputs"], "backend": culprit.get("backend", "llvm")},
+             "expected": "a result tensor", "actual": f"process exit status {rc}", "stderr_tail": err[-600:],
+             "reproducible_alone": None if cr2 is None else bool(cr2)})
     return judged
 
 
@@ -745,14 +814,17 @@ def run(chk):
 
     rng = chk.rng
     # ---------------------------------------------------------------- problems
-    n_search = 400 if thorough else 110
+    n_search = 300 if thorough else 110
     search = search_assignments(rng, n_search)
     templates = list(sweep.TEMPLATES)
     problems = []
-    cap_t, cap_s = (40, 10) if thorough else (7, 3)
-    ns, ni = (4, 3) if thorough else (2, 2)
+    cap_t, cap_s = (24, 6) if thorough else (7, 3)
+    ns, ni = (3, 2) if thorough else (2, 2)
     for t in templates:
         problems.append({"assignment": t, "cap": cap_t, "nsizes": ns, "ninputs": ni, "tag": "template"})
+    for t in LATTICE_TEMPLATES:
+        problems.append({"assignment": t, "cap": 32 if thorough else 8, "nsizes": 3, "ninputs": 8 if thorough else 5,
+                         "tag": "lattice", "sizes_set": [2, 3, 4], "prefer_sparse": True})
     for t in F2_TEMPLATES:
         problems.append({"assignment": t, "cap": cap_s + 2, "nsizes": ns + 1, "ninputs": ni, "tag": "f2"})
     for t in F3_TEMPLATES:
@@ -797,12 +869,23 @@ def run(chk):
             cases += make_variants(rng, c, by_assignment, lambda: next(ident))
     if thorough:  # the C back end too, on a part of the sweep
         for i, c in enumerate(base):
-            if i % 6 == 0:
+            if i % 8 == 0:
                 d = dict(c)
                 d["id"] = next(ident)
                 d["backend"] = "cffi"
                 cases.append(d)
     chk.count("cases.planned", len(cases))
+    seen_p, probs = set(), []
+    for c in base:
+        key = c["assignment"] + "|" + json.dumps(c["formats"], sort_keys=True)
+        if key not in seen_p:
+            seen_p.add(key)
+            probs.append({"assignment": c["assignment"], "formats": c["formats"]})
+    okg, logg = chk.coq_make(["proofs/DesugarSemGraphProofs.vo"])
+    if okg:
+        stage_graphs(chk, probs)
+    else:
+        chk.broken.append({"kind": "proof", "file": "proofs/DesugarSemGraphProofs.v", "coq_output_tail": logg[-1500:]})
 
     # ---------------------------------------------------------------- run + judge
     results, crashes = run_cases(chk, cases, workers, "sweep", per_case_timeout=60 if thorough else 30)
@@ -829,6 +912,12 @@ def run(chk):
     chk.extra["level_note"] = ("proof (partial): A spec invariances, B desugaring, C lattice algebra are unbounded theorems; "
                                "kernel generation is covered by the differential sweep only (testing)")
     chk.note(f"done after {time.time() - t0:.0f}s")
+    shutil.rmtree(WORK, ignore_errors=True)
+    for f in (BUILD / "cases").glob(f"c01_p{os.getpid()}_*"):
+        try:
+            f.unlink()
+        except OSError:
+            pass
 
 
 def replay(chk, payload):
